@@ -44,6 +44,8 @@ func runC10(c *Ctx) {
 		return
 	}
 
+	checkOneObjectPerSlot(c)
+
 	// ------------------------------------------------------------------ D1
 	{
 		pkg := p.PkgByRel["pkg/trie/smt"]
@@ -693,3 +695,71 @@ func typeRange(t types.Type) (int64, int64, bool) {
 	return 0, 0, false
 }
 
+
+// checkOneObjectPerSlot — C10.P3. The nodes of a decoded subtree are mutable records: proof
+// generation writes each node's position (node.index) into it and later finds the queried slot by
+// that position. Two slots of one subtree that are the same object therefore have one position —
+// the proof is computed for another slot than the queried one (an absence proof the trie's own
+// root does not verify). Structural condition: inside pkg/trie/smt, a *node stored into a slice
+// element (append or s[i] = …) in a loop is a value made in that iteration (a constructor call,
+// an allocation, a load from another collection), never a value defined outside the loop.
+func checkOneObjectPerSlot(c *Ctx) {
+	p := c.P
+	rule := "C10.P3 one-object-per-slot"
+	n := 0
+	for _, fn := range p.Subjects() {
+		if !IsProd(fn) || len(fn.Blocks) == 0 || !strings.HasPrefix(FuncKey(fn), "pkg/trie/smt.") {
+			continue
+		}
+		for _, fnn := range funcAndHelpers(fn) {
+			loops := naturalLoops(fnn)
+			if len(loops) == 0 {
+				continue
+			}
+			for _, b := range fnn.Blocks {
+				var in []*loopInfo
+				for _, l := range loops {
+					if l.Blocks[b] {
+						in = append(in, l)
+					}
+				}
+				if len(in) == 0 {
+					continue
+				}
+				for _, ins := range b.Instrs {
+					st, ok := ins.(*ssa.Store)
+					if !ok {
+						continue
+					}
+					if _, isIdx := st.Addr.(*ssa.IndexAddr); !isIdx {
+						continue
+					}
+					if o, s := ownerOfFieldBase(st.Val.Type()); s == nil || o != "trie/smt.node" {
+						continue
+					}
+					if _, isPtr := st.Val.Type().Underlying().(*types.Pointer); !isPtr {
+						continue
+					}
+					n++
+					fresh := false
+					why := ""
+					switch v := st.Val.(type) {
+					case ssa.Instruction:
+						vb := v.Block()
+						fresh = vb != nil
+						for _, l := range in {
+							if !l.Blocks[vb] {
+								fresh = false
+								why = "the stored node " + T(st.Val).String() + " is made once, before the loop at " + p.Pos(l.Header.Instrs[0].Pos()) + ": every slot filled by the loop is the same object"
+							}
+						}
+					default:
+						why = "the stored node " + T(st.Val).String() + " is not made in the loop"
+					}
+					c.Require(rule, FuncKey(fn)+": node stored into a slot", p.InstrPos(st), "each slot filled in a loop gets a node object of its own (made in that iteration)", fresh, why)
+				}
+			}
+		}
+	}
+	c.MinInstances(rule, n, 3)
+}
